@@ -605,6 +605,12 @@ class Executor:
                 return self._index_sym(
                     lambda j: self._elem(st.list_el(base.z, j), base.kinds[1], base.kinds[2] if len(base.kinds) > 2 else None, st),
                     st.list_len(base.z), idx, st)
+            if k == "dict" and "defaultdict0" in base.kinds:
+                # collections.defaultdict(int): a missing key reads as 0 and is inserted
+                key = z_int(idx)
+                val = z3.If(st.dict_has(base.z, key), st.dict_val(base.z, key), z3.IntVal(0))
+                st.dict_store(base.z, z3.Store(st.dict_dom(base.z), key, z3.BoolVal(True)), z3.Store(st.dict_vals(base.z), key, val))
+                return [Res("val", lift_int(val), st)]
             if k == "dict":
                 out = []
                 key = z_int(idx)
